@@ -136,6 +136,24 @@ fn res_json(r: Result<Value, String>) -> Value {
 }
 
 fn apply_dbg(rule: &Value, data: &Value) -> Result<Value, String> {
+    // Large flat inputs (long strings, wide arrays; little nesting) are evaluated on a worker
+    // thread with a small stack (256 KiB, as thread pools often configure).  The unchanged code
+    // uses stack in proportion to nesting only, so this costs it nothing; recursion that grows
+    // with the SIZE of a string or array, rather than with nesting, overflows there at sizes
+    // the Coq side can still evaluate quickly.
+    if crate::gens::json_depth(rule) <= 8 && crate::gens::json_depth(data) <= 8 && rule.to_string().len() + data.to_string().len() > 4_000 {
+        let r = std::thread::scope(|sc| {
+            std::thread::Builder::new()
+                .stack_size(256 << 10)
+                .spawn_scoped(sc, || std::panic::catch_unwind(|| jsonlogic_rs::apply(rule, data).map_err(|e| format!("{:?}", e))))
+                .expect("spawn worker")
+                .join()
+        });
+        return match r {
+            Ok(Ok(v)) => v,
+            Ok(Err(e)) | Err(e) => std::panic::resume_unwind(e),
+        };
+    }
     jsonlogic_rs::apply(rule, data).map_err(|e| format!("{:?}", e))
 }
 
